@@ -664,13 +664,13 @@ pub fn long_seqs(n_present: u32, prios: &[i32]) -> Vec<Vec<Pair>> {
         out.push((0..len).map(|i| (n_present + i as u32, 100, prios[(len - i) % np])).collect());
         out.push((0..len).map(|i| (n_present + i as u32, 100, prios[0])).collect());
         // alternate present / new items
-        out.push((0..len).map(|i| (if i % 2 == 0 { (i as u32 / 2) % n_present.max(1) } else { n_present + i as u32 }, 100 + i as u8, prios[(i * 7) % np])).collect());
+        out.push((0..len).map(|i| (if i % 2 == 0 { (i as u32 / 2) % n_present.max(1) } else { n_present + i as u32 }, 100 + (i % 100) as u8, prios[(i * 7) % np])).collect());
         // one present item repeated with varying priority, the last one decides
-        out.push((0..len).map(|i| (0u32, 100 + i as u8, prios[(i * 3 + 1) % np])).collect());
+        out.push((0..len).map(|i| (0u32, 100 + (i % 100) as u8, prios[(i * 3 + 1) % np])).collect());
         // one new item repeated
-        out.push((0..len).map(|i| (n_present + 1, 100 + i as u8, prios[(i * 5 + 2) % np])).collect());
+        out.push((0..len).map(|i| (n_present + 1, 100 + (i % 100) as u8, prios[(i * 5 + 2) % np])).collect());
         // every present item rewritten, then new ones
-        out.push((0..len).map(|i| (i as u32, 100 + i as u8, prios[(i + 1) % np])).collect());
+        out.push((0..len).map(|i| (i as u32, 100 + (i % 100) as u8, prios[(i + 1) % np])).collect());
     }
     out
 }
